@@ -39,7 +39,7 @@ func init() {
 	register(&core.Rule{ID: "EQ-NILSAFE", Props: []string{"C05"}, Floor: 15,
 		Doc: "in package tla the unexported data of a Value is dereferenced only after a nil check of that same Value (defaultInitValue has nil data)",
 		Run: runEqNilSafe})
-	register(&core.Rule{ID: "HASH-COMMUT", Props: []string{"C05"}, Floor: 2,
+	register(&core.Rule{ID: "HASH-COMMUT", Props: []string{"C05", "C03"}, Floor: 2,
 		Doc: "Hash of the unordered kinds (set, function) combines element hashes with a commutative operator only",
 		Run: runHashCommut})
 	register(&core.Rule{ID: "GOB-PAIR", Props: []string{"C05", "C12"}, Floor: 9,
